@@ -152,6 +152,9 @@ def finding_key(spec, a, obs):
         return "kFlowDecomp._get_solution_with_greedy:%s:unvalidated-constraints" % obs
     if spec["origin"] == "node" and spec["cons"] and isinstance(spec["cons"][0], list) and len(spec["cons"][0]) == 0 and obs == "IndexError":
         return "NodeExpandedDiGraph.get_expanded_subpath_constraints:IndexError:first-constraint-empty"
+    if cls in ci.DAG_CLASSES and not spec["cons"] and spec.get("cov_len") is not None and not (0 < spec["cov_len"] <= 1) \
+            and (0 < spec["cov"] <= 1) and obs in ("SOLVED", "UNSOLVED", "ACCEPT"):
+        return "AbstractPathModelDAG:accepted:coverage_length-out-of-range-without-constraints"
     if cls in ci.HAS_CONS and not spec["cons"] and not (0 < spec["cov"] <= 1) and obs in ("SOLVED", "UNSOLVED", "ACCEPT"):
         return ("AbstractWalkModelDiGraph" if cyc else "AbstractPathModelDAG") + ":accepted:coverage-out-of-range-without-constraints"
     if cls in ("MinFlowDecomp", "MinFlowDecompCycles", "MinPathCover", "MinPathCoverCycles") and not a["search_enters"] and obs == "UNSOLVED":
